@@ -45,7 +45,7 @@ impl Dom for Sym {
             c.n_inputs += 1;
             if c.mode == sym::Mode::Exact {
                 // inputs the model does not mention are unconstrained by the query: 0, or 1 for inputs assumed positive ("pos…")
-                let v = c.exact_inputs.get(name).cloned().unwrap_or_else(|| BigRational::from_integer((if name.starts_with("pos") { 1 } else { 0 }).into()));
+                let v = c.exact_inputs.get(name).cloned().unwrap_or_else(|| if name.starts_with("pos") && !num::Signed::is_positive(&c.exact_default) { BigRational::from_integer(1.into()) } else { c.exact_default.clone() });
                 Sym(c.mk(sym::Node::Const(v)))
             } else { Sym(c.var(name)) }
         })
@@ -81,6 +81,8 @@ pub struct NativeCtx {
     pub failed: Vec<(String, String)>,
     pub assumption_failed: Vec<String>,
     pub obligations: u64,
+    /// value of inputs the model does not mention
+    pub default: f64,
 }
 thread_local! { pub static NATIVE: RefCell<NativeCtx> = RefCell::new(NativeCtx::default()); }
 
@@ -104,7 +106,7 @@ fn eval(c: &Cond<f64>, strict: bool) -> bool {
 }
 impl Dom for f64 {
     const SYMBOLIC: bool = false;
-    fn input(name: &str) -> f64 { NATIVE.with(|n| n.borrow().inputs.get(name).copied().unwrap_or(if name.starts_with("pos") { 1.0 } else { 0.0 })) }
+    fn input(name: &str) -> f64 { NATIVE.with(|n| { let n = n.borrow(); n.inputs.get(name).copied().unwrap_or(if name.starts_with("pos") && n.default <= 0.0 { 1.0 } else { n.default }) }) }
     fn assume(c: Cond<f64>) { if !eval(&c, false) { NATIVE.with(|n| n.borrow_mut().assumption_failed.push(format!("{:?}", c))); } }
     fn oblige(label: &str, c: Cond<f64>) {
         NATIVE.with(|n| n.borrow_mut().obligations += 1);
